@@ -1,4 +1,5 @@
 import Ymq.Props.C01
+import Ymq.Props.C01Closed
 #print axioms Ymq.C01.factor_no_one
 #print axioms Ymq.C01.factor_sound
 #print axioms Ymq.C01.retain_residue_one
@@ -6,3 +7,6 @@ import Ymq.Props.C01
 #print axioms Ymq.C01.combineDiv_no_panic
 #print axioms Ymq.C01.factorImpl_prod
 #print axioms Ymq.C01.factor_exact
+#print axioms Ymq.C01.oracleOK_of_models
+#print axioms Ymq.C01.factor_exact_closed
+#print axioms Ymq.C01.factor_total_closed
